@@ -328,6 +328,20 @@ def gen_session(r, maxops):
 
 # minimised past failures / design candidates; run first
 CORPUS = [
+    # one case per break of the independent seeding rounds (D, C, B, ...), first so that they run at every seed before anything else
+    ("counters-after-pattern-error", ["compile 0 num_any_err ok", "compile 1 num_any_all ok", "compile 2 num_from_err ok", "compile 3 obs ok", "parse 0 d4 ok",
+                                      "transform 1 0 1", "transform 0 0 2", "transform 1 0 3", "transform 2 0 4", "transform 1 0 5", "transform 3 0 6",
+                                      "transform 0 0 7", "transform 3 0 8"]),
+    ("collator-case-order", ["compile 0 coll_sv_upper ok", "compile 1 coll_sv ok", "compile 2 coll_sv_lower ok", "parse 0 d4 ok",
+                             "transform 1 0 1", "transform 0 0 2", "transform 1 0 3", "transform 2 0 4", "transform 1 0 5", "transform 0 0 6",
+                             "transformsrc coll_fr_upper d4 7", "transformsrc coll_fr d4 8", "transformsrc coll_de_lower_desc d4 9", "transformsrc coll_de d4 10",
+                             "transformsrc obs d4 11", "transformsrc coll_en_upper d4 12", "transformsrc coll_en d4 13", "transformsrc obs d4 14"]),
+    ("stale-sort-keys", ["compile 0 sort_avt ok", "compile 1 obs ok", "compile 2 sort_fnerr ok", "parse 0 d1 ok", "parse 1 d2 ok",
+                         "transform 0 0 1", "transform 1 0 2", "transform 1 1 3", "transform 2 1 4", "transform 1 1 5", "transform 1 0 6",
+                         "setexpr p1 'ascending'", "transform 0 0 7", "transform 1 0 8", "setexpr p1 'bogus'", "transform 0 1 9", "transform 1 1 10"]),
+    ("decimal-formats", ["compile 0 fmt_df1 ok", "compile 1 fmt_df2 ok", "compile 2 obs ok", "parse 0 d1 ok", "transform 2 0 1", "transform 0 0 2", "transform 2 0 3",
+                         "transform 1 0 4", "transform 0 0 5", "transformsrc fmt_dfdefault d1 6", "transform 2 0 7", "transformsrc fmt_err d1 8", "transform 1 0 9",
+                         "transform 2 0 10"]),
     # F1: last write does not win when the same key is set as expression, then as number
     ("param-overwrite", ["setexpr p1 'a'", "setnum p1 5", "transformsrc obs d1 1"]),
     ("param-overwrite-2", ["setnum p1 5", "setexpr p1 'a'", "setnum p1 7", "compile 0 obs ok", "parse 0 d1 ok", "transform 0 0 2"]),
@@ -354,25 +368,12 @@ CORPUS = [
     ("objstack-reuse-after-abort", ["transformsrc nest_abort d2 1", "transformsrc nest_ok d2 2", "transformsrc nest_abort d1 3", "transformsrc nest_abort d2 4",
                                     "transformsrc nest_ok d1 5", "transformsrc obs d1 6", "transformsrc nest_ok d2 7"]),
     # break B of the independent seeding: sort keys surviving an abort inside sortChildren
-    ("stale-sort-keys", ["compile 0 sort_avt ok", "compile 1 obs ok", "compile 2 sort_fnerr ok", "parse 0 d1 ok", "parse 1 d2 ok",
-                         "transform 0 0 1", "transform 1 0 2", "transform 1 1 3", "transform 2 1 4", "transform 1 1 5", "transform 1 0 6",
-                         "setexpr p1 'ascending'", "transform 0 0 7", "transform 1 0 8", "setexpr p1 'bogus'", "transform 0 1 9", "transform 1 1 10"]),
     ("stale-sort-keys-src", ["transformsrc sort_avt d1 1", "transformsrc obs d1 2", "transformsrc sort_avt3 d2 3", "transformsrc obs d2 4",
                              "transformsrc sort_fnerr d1 5", "transformsrc obs_strip d1 6", "transformsrc sort_caseorder d2 7", "transformsrc nest_ok d2 8"]),
     ("abort-in-key-number-format", ["compile 0 obs ok", "parse 0 d1 ok", "parse 1 d2 ok", "transformsrc key_err d1 1", "transform 0 0 2", "transformsrc num_err d2 3",
                                     "transform 0 1 4", "transformsrc fmt_err d1 5", "transform 0 0 6", "transformsrc doc_foreach d2 7", "transform 0 1 8",
                                     "transformsrc num_group d1 9", "transform 0 0 10"]),
     # break C of the second seeding: case-order left on the cached per-lang collator
-    ("collator-case-order", ["compile 0 coll_sv_upper ok", "compile 1 coll_sv ok", "compile 2 coll_sv_lower ok", "parse 0 d4 ok",
-                             "transform 1 0 1", "transform 0 0 2", "transform 1 0 3", "transform 2 0 4", "transform 1 0 5", "transform 0 0 6",
-                             "transformsrc coll_fr_upper d4 7", "transformsrc coll_fr d4 8", "transformsrc coll_de_lower_desc d4 9", "transformsrc coll_de d4 10",
-                             "transformsrc obs d4 11", "transformsrc coll_en_upper d4 12", "transformsrc coll_en d4 13", "transformsrc obs d4 14"]),
     # break D of the second seeding: CountersTable scratch list left behind by a failing count pattern, same parsed source
-    ("counters-after-pattern-error", ["compile 0 num_any_err ok", "compile 1 num_any_all ok", "compile 2 num_from_err ok", "compile 3 obs ok", "parse 0 d4 ok",
-                                      "transform 1 0 1", "transform 0 0 2", "transform 1 0 3", "transform 2 0 4", "transform 1 0 5", "transform 3 0 6",
-                                      "transform 0 0 7", "transform 3 0 8"]),
-    ("decimal-formats", ["compile 0 fmt_df1 ok", "compile 1 fmt_df2 ok", "compile 2 obs ok", "parse 0 d1 ok", "transform 2 0 1", "transform 0 0 2", "transform 2 0 3",
-                         "transform 1 0 4", "transform 0 0 5", "transformsrc fmt_dfdefault d1 6", "transform 2 0 7", "transformsrc fmt_err d1 8", "transform 1 0 9",
-                         "transform 2 0 10"]),
     ("destroy-twice", ["compile 0 obs ok", "dsheet 0", "dsheet 0", "dsource 1", "parse 1 d1 ok", "dsource 1", "dsource 1"]),
 ]
